@@ -284,5 +284,69 @@ def check_cli_filter_wiring(tier, seed):
     return {"bound": "4 programs x 8 keep-flag combinations x mapping quality {default, 0, 35} through the real CLI parser", "evaluations": ev, "distinct_nontrivial": ev, "failures": fails, "samples": [], "exhaustive": True}
 
 
-CHECKS = [check_extract, check_counts_and_reference, check_cli_filter_wiring]
+def check_locus_reference_consistency(tier, seed):
+    """building a locus from an SNV file (what assemble does): records of one site are merged into one allele list, and ANY
+    record whose REF disagrees with the FASTA is an error -- also the second record of a duplicated site"""
+    from mchap.io import Locus
+
+    rng = np.random.default_rng(seed + 67)
+    tmp = tempfile.mkdtemp(prefix="verif_c06c_")
+    ev = 0
+    fails = []
+    try:
+        seq = "GATTACAGGTACCGTTAGCATGCAATCGGATCCTAGGCTTAACGTGCATCGATCGGATTA"
+        fa = os.path.join(tmp, "ref.fasta")
+        open(fa, "w").write(">chr1\n%s\n" % seq)
+        pysam.faidx(fa)
+
+        def write_vcf(name, records):
+            path = os.path.join(tmp, name)
+            with open(path, "w") as f:
+                f.write("##fileformat=VCFv4.2\n##contig=<ID=chr1,length=%d>\n#CHROM\tPOS\tID\tREF\tALT\tQUAL\tFILTER\tINFO\n" % len(seq))
+                for pos0, ref_, alt in records:
+                    f.write("chr1\t%d\t.\t%s\t%s\t.\tPASS\t.\n" % (pos0 + 1, ref_, alt))
+            return pysam.tabix_index(path, preset="vcf", force=True)
+
+        others = lambda b: [x for x in "ACGT" if x != b]
+        for rep in range(12 if tier == "quick" else 60):
+            sites = sorted(int(x) for x in rng.choice(np.arange(8, 42), size=3, replace=False))
+            recs, expect = [], []
+            for p_ in sites:
+                alts = list(rng.permutation(others(seq[p_])))
+                if rng.random() < 0.6:
+                    recs += [(p_, seq[p_], alts[0]), (p_, seq[p_], alts[1])]  # a site split over two records
+                    expect.append((seq[p_], alts[0], alts[1]))
+                else:
+                    recs.append((p_, seq[p_], alts[0]))
+                    expect.append((seq[p_], alts[0]))
+            ev += 1
+            try:
+                locus = Locus.from_region_string("chr1:5-45", name="t").set_sequence(fa).set_variants(write_vcf("ok%d.vcf" % rep, recs))
+                got = [tuple(a) for a in locus.alleles]
+            except Exception as ex:
+                got = repr(ex)
+            if got != expect and len(fails) < 3:
+                fails.append({"key": "rt/locus_alleles_from_snv_records", "check": "mchap.io.loci.Locus.set_variants", "input": {"records": recs}, "observed": got, "expected": expect, "how": "records of one site merged in order, REF first"})
+            # one record (first, or second of a duplicated site) claims a REF that is not the FASTA base
+            k = int(rng.integers(0, len(recs)))
+            p_, r_, a_ = recs[k]
+            wrong = [x for x in "ACGT" if x not in (r_, a_)][0]
+            bad_recs = list(recs)
+            bad_recs[k] = (p_, wrong, a_)
+            ev += 1
+            try:
+                Locus.from_region_string("chr1:5-45", name="t").set_sequence(fa).set_variants(write_vcf("bad%d.vcf" % rep, bad_recs))
+                raised = False
+            except ValueError:
+                raised = True
+            except Exception:
+                raised = True
+            if not raised and len(fails) < 3:
+                fails.append({"key": "rt/reference_mismatch_in_snv_file_not_reported", "check": "mchap.io.loci.Locus.set_variants", "input": {"records": bad_recs, "fasta_base": seq[p_]}, "observed": "locus built", "expected": "ValueError"})
+    finally:
+        shutil.rmtree(tmp, ignore_errors=True)
+    return {"bound": "seeded SNV files with sites split over several records; one record with a REF that is not the FASTA base", "evaluations": ev, "distinct_nontrivial": ev, "failures": fails, "samples": [], "exhaustive": False}
+
+
+CHECKS = [check_extract, check_counts_and_reference, check_cli_filter_wiring, check_locus_reference_consistency]
 REPLAY = {}
